@@ -63,28 +63,30 @@ func (f *faultKV) Delete(key string) error {
 	return f.KeyValue.Delete(key)
 }
 
+// faultBatch records the mutations; the wrapped store's batch is begun only when the commit goes ahead
+// (a store's BeginBatch may hold a lock or a transaction until CommitBatch, and there is no rollback).
 type faultBatch struct {
-	sorted.BatchMutation
-	keys []string
+	muts []mutation
 }
 
-func (b *faultBatch) Set(key, value string) {
-	b.keys = append(b.keys, key)
-	b.BatchMutation.Set(key, value)
+type mutation struct {
+	del        bool
+	key, value string
 }
 
-func (f *faultKV) BeginBatch() sorted.BatchMutation {
-	return &faultBatch{BatchMutation: f.KeyValue.BeginBatch()}
-}
+func (b *faultBatch) Set(key, value string) { b.muts = append(b.muts, mutation{false, key, value}) }
+func (b *faultBatch) Delete(key string)     { b.muts = append(b.muts, mutation{true, key, ""}) }
+
+func (f *faultKV) BeginBatch() sorted.BatchMutation { return &faultBatch{} }
 
 func (f *faultKV) CommitBatch(b sorted.BatchMutation) error {
 	fb, ok := b.(*faultBatch)
 	if !ok {
-		return f.KeyValue.CommitBatch(b)
+		return errors.New("c05: foreign batch")
 	}
 	if f.hit("commit", func(ref string) bool {
-		for _, k := range fb.keys {
-			if k == "have:"+ref {
+		for _, m := range fb.muts {
+			if !m.del && m.key == "have:"+ref {
 				return true
 			}
 		}
@@ -92,7 +94,15 @@ func (f *faultKV) CommitBatch(b sorted.BatchMutation) error {
 	}) {
 		return errInjected
 	}
-	return f.KeyValue.CommitBatch(fb.BatchMutation)
+	inner := f.KeyValue.BeginBatch()
+	for _, m := range fb.muts {
+		if m.del {
+			inner.Delete(m.key)
+		} else {
+			inner.Set(m.key, m.value)
+		}
+	}
+	return f.KeyValue.CommitBatch(inner)
 }
 
 // Wipe: Reindex needs a sorted.Wiper.
